@@ -41,6 +41,13 @@ impl Tweenable for Duration {
 	fn interpolate(a: Self, b: Self, amount: f64) -> Self {
 		let a_secs = a.as_secs_f64();
 		let b_secs = b.as_secs_f64();
-		Duration::from_secs_f64(a_secs + (b_secs - a_secs) * amount)
+		let secs = a_secs + (b_secs - a_secs) * amount;
+		// an easing curve that leaves 0..=1 (e.g. a negative power) can push the
+		// result below zero or to infinity, which Duration::from_secs_f64 panics on
+		Duration::try_from_secs_f64(secs).unwrap_or(if secs > 0.0 {
+			Duration::MAX
+		} else {
+			Duration::ZERO
+		})
 	}
 }
